@@ -6,7 +6,8 @@
 // documentation and predicate; no test in the tree has a token whose length equals the limit).
 // Ordinary integration test, public API only: copy into tests/ of a copy of the tree,
 //   cargo test --offline --test demo_remove_long_limit
-// Recorded 2026-09-26 on /repo: see the report of worker w10c (expected: FAILED, left: ["nice"], right: ["hello", "nice"]).
+// Recorded 2026-09-26 on a copy of /repo: token_of_exactly_limit_bytes_is_not_longer_than_the_limit FAILED -- assertion `left == right`
+//   failed, left: ["nice"], right: ["hello", "nice"]; documented_example_still_holds ok.
 use tantivy::tokenizer::{RemoveLongFilter, SimpleTokenizer, TextAnalyzer};
 
 fn tokens(limit: usize, text: &str) -> Vec<String> {
